@@ -394,7 +394,11 @@ func c17Disturbances(c *Ctx) {
 			if nerr == nil {
 				bindOK(again.Mux)
 				again.S.Router(again.Mux)
-				first := again.S.Run(blocker.Addr().String())
+				var firstOpts []gldap.Option
+				if ep%3 == 2 {
+					firstOpts = append(firstOpts, gldap.WithTLSConfig(pki.ServerOnly)) // what the failed Run was given does not stick
+				}
+				first := again.S.Run(blocker.Addr().String(), firstOpts...)
 				second := make(chan error, 1)
 				addr2 := fmt.Sprintf("127.0.0.1:%d", freePort())
 				if ep%2 == 1 {
@@ -440,14 +444,18 @@ func c17Disturbances(c *Ctx) {
 			blocker.Close()
 		}
 		// a server with a read timeout that sees no connection for longer than that timeout
-		rsrv, err := startSrv(SrvCfg{ReadTimeout: 300 * time.Millisecond}, bindOK)
+		rcfg := SrvCfg{ReadTimeout: 300 * time.Millisecond}
+		if ep%2 == 1 {
+			rcfg = SrvCfg{WriteTimeout: 300 * time.Millisecond} // or a write timeout: it does not start before there is something to write to
+		}
+		rsrv, err := startSrv(rcfg, bindOK)
 		if err != nil {
 			c.Inconclusive("server start: " + err.Error())
 			return
 		}
 		time.Sleep(time.Duration(700+100*(ep%3)) * time.Millisecond)
 		if err := c17Served(rsrv.Addr, nil, bound); err != nil && rsrv.S.Ready() {
-			c.Violate("Ready() was true but a connection attempt failed or was not served", fmt.Sprintf("server with a 300ms read timeout that had been idle for longer than that: Ready()=true, Stop not called, yet a new connection is not served within %s: %v", bound, err), map[string]any{"episode": ep})
+			c.Violate("Ready() was true but a connection attempt failed or was not served", fmt.Sprintf("server with a 300ms read (or write) timeout that had been idle for longer than that: Ready()=true, Stop not called, yet a new connection is not served within %s: %v", bound, err), map[string]any{"episode": ep})
 		} else if err == nil {
 			c.Count("dials_after_ready_true", 1)
 			c.Count("served_after_idling_longer_than_the_read_timeout", 1)
